@@ -115,11 +115,11 @@ func rcvHandleSegmentTable() []taggedSpec {
 	return []taggedSpec{
 		{"C01 C04", SiteSpec{Kind: "call", Target: "(*tcp.receiver).acceptable", Args: []string{"$0", seq, ln}, Guards: []string{"!$0.closed"}, Exact: true, N: 1,
 			Why: "every arriving segment is tested against the receive window with its own sequence number and payload length; nothing is processed after the receive side closed"}},
-		{"C01", SiteSpec{Kind: "call", Target: "(*tcp.receiver).consumeSegment", Args: []string{"$0", s, seq, ln}, Guards: []string{"!$0.closed", acc}, Exact: true, N: 1,
+		{"C01 C02", SiteSpec{Kind: "call", Target: "(*tcp.receiver).consumeSegment", Args: []string{"$0", s, seq, ln}, Guards: []string{"!$0.closed", acc}, Exact: true, N: 1,
 			Why: "an acceptable segment is offered for consumption with its own sequence number and length"}},
 		{"C01", SiteSpec{Kind: "call", Target: "container/heap.Push", Args: []string{"&$0.pendingRcvdSegments", s}, Guards: []string{"!$0.closed", "!" + cons, "($0.pendingBufUsed < $0.pendingBufSize)", acc}, N: 1,
 			Why: "an acceptable but not yet consumable segment is parked in the sequence-ordered heap (if the out-of-order budget allows)"}},
-		{"C01", SiteSpec{Kind: "call", Target: "(*tcp.receiver).consumeSegment", Args: []string{"$0", p0, p0 + ".sequenceNumber", "buffer.VectorisedView.Size(" + p0 + ".data)"}, N: 1,
+		{"C01 C02", SiteSpec{Kind: "call", Target: "(*tcp.receiver).consumeSegment", Args: []string{"$0", p0, p0 + ".sequenceNumber", "buffer.VectorisedView.Size(" + p0 + ".data)"}, N: 1,
 			Guards: []string{"!$0.closed", acc, cons, "!(tcp.segmentHeap.Len($0.pendingRcvdSegments) < 1)", "!seqnum.Value.LessThan(seqnum.Value.Add(" + p0 + ".sequenceNumber, (buffer.VectorisedView.Size(" + p0 + ".data) - 1)), $0.rcvNxt)"},
 			Why:    "after the gap closed, each parked segment (heap minimum) is consumed with ITS OWN sequence number and ITS OWN length; wholly acknowledged ones are skipped"}},
 		{"C01", SiteSpec{Kind: "call", Target: "container/heap.Pop", Args: []string{"&$0.pendingRcvdSegments"}, Guards: []string{"!$0.closed", acc, cons, "!(tcp.segmentHeap.Len($0.pendingRcvdSegments) < 1)"}, Exact: true, N: 1,
